@@ -83,8 +83,20 @@ def noleak_worker(job):
     for pi, p in enumerate(ex.paths):
         if p.exc is not None:
             continue
+        # mode="sequential": the hydraulic stage takes tfluid_k as an input by design, so the mass flows it hands to the
+        # thermal stage may depend on it (prescribed flows of (qext, deltat/treturn) consumers do, through cp(tfluid_k));
+        # the thermal stage is examined *given* these mass flows: each is replaced by a fresh constant
+        subs = []
+        if mode == "sequential":
+            from pandapipes.idx_branch import MDOTINIT
+            for k_, mv in enumerate(p.value["_pit"]["branch"][:, MDOTINIT]):
+                if isinstance(mv, Sym) and any(v.startswith("junction.tfluid_k[") for v in free_vars(mv.t)):
+                    subs.append((mv.t, z3.Real("m_hyd_given_%d" % k_)))
+                    subs.append((z3.simplify(mv.t), z3.Real("m_hyd_given_%d" % k_)))
         for lab, t, thermal in _terms_of_run(p, p.value):
             n += 1
+            if subs and thermal:
+                t = z3.substitute(t, *subs)
             fv = free_vars(t)
             if any(v.startswith(("junction.pn_bar[", "junction.tfluid_k[")) for v in fv):
                 fv = free_vars(z3.simplify(t))        # occurrences like 0 * pn_bar (averaging with count 0) are no dependence
@@ -104,16 +116,19 @@ def replay_noleak(rs):
     """two converged real runs that differ only in the start value named by the leaking symbol"""
     spec, mode, numba = rs["spec"], rs.get("pfmode") or "hydraulics", bool(rs.get("numba"))
     sym = rs["symbol"]
-    res = []
-    for delta in (0.0, 1.0):
-        net, names = nets.build(spec, nets.concrete_valuer({}))
-        col = sym.split(".", 1)[1].split("[")[0]
-        ix = int(sym.split("[")[1][:-1])
-        net.junction.at[ix, col] = float(net.junction.at[ix, col]) + delta * (0.7 if col == "pn_bar" else 9.0)
-        ok, err = concrete_pipeflow(net, mode=mode, use_numba=numba, tol_p=1e-10, tol_m=1e-10, tol_res=1e-10, tol_T=1e-10,
-                                    max_iter_hyd=300, max_iter_therm=300, max_iter_bidirect=300)
-        res.append((net, ok, err))
-    (na, oka, ea), (nb, okb, eb) = res
+    for tol in (1e-10, 1e-8, 1e-6):          # the tightest tolerances at which both runs converge
+        res = []
+        for delta in (0.0, 1.0):
+            net, names = nets.build(spec, nets.concrete_valuer({}))
+            col = sym.split(".", 1)[1].split("[")[0]
+            ix = int(sym.split("[")[1][:-1])
+            net.junction.at[ix, col] = float(net.junction.at[ix, col]) + delta * (0.7 if col == "pn_bar" else 9.0)
+            ok, err = concrete_pipeflow(net, mode=mode, use_numba=numba, tol_p=tol, tol_m=tol, tol_res=tol * 100, tol_T=tol,
+                                        max_iter_hyd=300, max_iter_therm=300, max_iter_bidirect=300)
+            res.append((net, ok, err))
+        (na, oka, ea), (nb, okb, eb) = res
+        if oka and okb:
+            break
     if not (oka and okb):
         return False, {"not both converged": [ea, eb]}
     from svx import equiv
@@ -297,9 +312,20 @@ def jobs(tier, seed):
     structs = [(catalog.w_line3(), ["hydraulics"]), (catalog.w_components(), ["hydraulics"]), (catalog.g_components(), ["hydraulics"]),
                (catalog.g_mesh(), ["hydraulics"]), (catalog.w_circ_loop(), ["sequential", "bidirectional"]),
                (catalog.w_circ_mass(), ["sequential", "bidirectional"])]
+    # labels that are not table positions (start values must not reach fixed entries through a label / position mix-up)
+    structs += [(catalog.relabelled(catalog.w_components(), [40, 3, 17, 9, 120, 5], order=[3, 0, 5, 1, 4, 2]), ["hydraulics"]),
+                (catalog.relabelled(catalog.g_components(), [8, 2, 31, 11, 4]), ["hydraulics"]),
+                (catalog.relabelled({"name": "g_pc", "fluid": "gas", "nj": 4, "elems": [
+                    catalog.E("ext_grid", j=0), catalog.E("pipe", f=0, to=1), catalog.E("press_control", f=1, to=2, cj=2, p=3.5),
+                    catalog.E("pipe", f=2, to=3), catalog.E("sink", j=3)]}, [30, 7, 2, 11]), ["hydraulics"])]
+    # every heat-consumer specification mode, exchangers, exchangers entered against the flow
+    from checks.c11 import specs as c11_specs
+    structs += [(s_, ["sequential", "bidirectional"]) for s_ in c11_specs()]
     for s, modes in structs:
         for m in modes:
             for numba in (False, True):
+                if s["name"] in ("qe_mf", "qe_dt", "hex", "series", "series_rev", "hex_rev") and numba and tier == "quick":
+                    continue
                 out.append({"name": "noleak/%s/%s/%s" % (s["name"], m, "numba" if numba else "numpy"), "kind": "noleak", "spec": s,
                             "pfmode": m, "numba": numba})
     out.append({"name": "unique/liquid", "kind": "unique", "gas": False})
